@@ -127,8 +127,9 @@ impl Stream {
 
 /// A non-tape PRNG for the exhaustive/bulk drivers (seeded from VERIF_SEED and the shard).
 pub fn splitmix(seed: u64) -> Stream {
-	// never the degenerate zero stream
-	Stream(seed | 1)
+	// never the degenerate zero stream; distinct seeds give distinct streams
+	let s = seed ^ 0x5851_F42D_4C95_7F2D;
+	Stream(if s == 0 { 0x9E37_79B9_7F4A_7C15 } else { s })
 }
 
 /// Boundary-biased unsigned integer of `bits` width.
